@@ -244,8 +244,8 @@ func (w *World) Yield(ctx context.Context, op, note string, kinds ...FaultKind) 
 	return w.park(ctx, op, note, nil, false, kinds)
 }
 
-func (w *World) parkLockWait(ctx context.Context, s *Session, what string) {
-	w.park(ctx, "lockwait", what, s.canProceed, true, nil)
+func (w *World) parkLockWait(ctx context.Context, s *Session, what string) *Fault {
+	return w.park(ctx, "lockwait", what, s.canProceed, true, nil)
 }
 
 func (w *World) park(ctx context.Context, op, note string, cond func() bool, lockWait bool, kinds []FaultKind) *Fault {
